@@ -98,12 +98,17 @@ def ConsOK (s : WStat Val Op) : Consumer Val → Prop
   | .watch _ n deps => ∃ nd, s.nodes[n]? = some nd ∧ nd.isW = false ∧ deps = nd.params
   | .trigX c _ _ => ArgClean s c ∧ ∃ ce, sArgExpr s c = some ce
   | .trigY c _ _ => ArgClean s c ∧ ∃ ce, sArgExpr s c = some ce
+  | .sync _ n deps => ∃ nd, s.nodes[n]? = some nd ∧ nd.isW = false ∧ deps = nd.params
 
 structure DepS (s : WStat Val Op) : Prop where
   node : ∀ (i : Nat) (nd : NStat Val Op), s.nodes[i]? = some nd → NodeDep s nd
   cons : ∀ c ∈ s.consumers, ConsOK s c
 
 theorem DepS.watch {s : WStat Val Op} (h : DepS s) : ∀ k n deps, Consumer.watch k n deps ∈ s.consumers →
+    ∃ nd, s.nodes[n]? = some nd ∧ nd.isW = false ∧ deps = nd.params :=
+  fun k n deps hm => h.cons _ hm
+
+theorem DepS.sync {s : WStat Val Op} (h : DepS s) : ∀ k n deps, Consumer.sync k n deps ∈ s.consumers →
     ∃ nd, s.nodes[n]? = some nd ∧ nd.isW = false ∧ deps = nd.params :=
   fun k n deps hm => h.cons _ hm
 
